@@ -148,6 +148,39 @@ func runC19(c *Ctx) {
 		}
 	}
 	c.Check(fname(cm)+"#writes-in-completion-order", cm.Pos(), noMap && usesOrder && putInLoop, ifelse(noMap && usesOrder, "iterates membatch.order", "Commit iterates the batch map: nodes reach the database in random order and an interrupted write leaves parents without children"))
+	// the order list and the batch map describe the same set of nodes until the whole batch was written: Commit
+	// does not take single entries out of either (a failed Put leaves everything for the retry), it replaces
+	// the membatch as a whole, and only on the path on which every Put returned nil
+	{
+		piecemeal := ""
+		for _, fn := range w.FuncsIn("trie") {
+			if strings.HasSuffix(w.fileOf(fn.Pos()), "_test.go") || !strings.HasSuffix(w.fileOf(fn.Pos()), "trie/sync.go") {
+				continue
+			}
+			for _, fw := range fieldWrites(fn) {
+				if fw.Field == batchF && fw.Kind == "delete" {
+					piecemeal = "deletes single entries from membatch.batch at " + w.Pos(fw.Instr.Pos())
+				}
+				if fw.Field == orderF && fn == cm {
+					piecemeal = "rewrites membatch.order at " + w.Pos(fw.Instr.Pos())
+				}
+			}
+		}
+		c.sites++
+		resetOK := false
+		membatchF := w.Field("trie", "Sync", "membatch")
+		for _, fw := range fieldWrites(cm) {
+			if fw.Field == membatchF && fw.Kind == "store" {
+				// on the path to this store every Put of the loop returned nil: the store is not inside the loop and
+				// the only way out of the loop other than the error return is its normal end
+				if !inLoop(fw.Instr) {
+					resetOK = true
+				}
+			}
+		}
+		okC := piecemeal == "" && resetOK
+		c.Check(fname(cm)+"#batch-dropped-only-as-a-whole", cm.Pos(), okC, ifelse(okC, "no entry leaves the batch before all were written; the membatch is replaced after the loop", "Commit "+ifelse(piecemeal != "", piecemeal, "does not replace the membatch after the write loop")+": after a failed Put the nodes already written are gone from the map but still in the order list, the retry writes empty values over good nodes, and the sync reports completion on a damaged trie"))
+	}
 	var ordApp, batchUpd ssa.Instruction
 	for _, fw := range fieldWrites(commit) {
 		if fw.Field == orderF {
